@@ -771,6 +771,21 @@ export function gen(rng, params, mode) {
       const extra = ["a", "b", "c", { tag: "a" }, { tag: "c" }, 1, null];
       return [A("split"), A(String(counter++)), p2, [["entry.ts", single]], [...vals, ...extra].map(encVal), sp.proj, multi, sp.expect, A("enum")];
     }
+    if (rng.chance(1, 10) && isAtom(sp.expect, "ok")) {
+      // a member of a constant reached through `typeof import("./vals_v").cfg.mode`: the leftmost name after `import(…).` is an
+      // EXPORT of the imported file — here exported under another name than the constant's own, next to a private constant that
+      // carries the exported name (value modules are outside the Lean module model: marker `enum`)
+      const addExport = (src, t) => src.replace(/ \}>\(\);\n$/, `, EN: ${t} }>();\n`);
+      const decoy = rng.chance(2, 3), deep = rng.chance(1, 2);
+      const path = deep ? "cfg.inner.mode" : "cfg.mode";
+      const val = (m) => (deep ? `{ inner: { mode: "${m}" }, n: 1 } as const` : `{ mode: "${m}", n: 1 } as const`);
+      const single = `const cfgV = ${val("on")};\n` + addExport(tsOfProg(p), `typeof ${path.replace(/^cfg/, "cfgV")}`);
+      const lib = (decoy ? `const cfg = ${val("local")};\n` : "") + `const real = ${val("on")};\nexport { real as cfg };\n` + (decoy ? "export const other = cfg;\n" : "");
+      const multi = sp.files.map(([n, t]) => (n === "entry.ts" ? [n, addExport(t, `typeof import("./vals_v").${path}`)] : [n, t])).concat([["vals_v.ts", lib]]);
+      const p2 = [p[0], p[1], [...p[2], ["EN", A("unknown")]]];
+      const extra = ["on", "local", "off", 1, null, { mode: "on" }];
+      return [A("split"), A(String(counter++)), p2, [["entry.ts", single]], [...vals, ...extra].map(encVal), sp.proj, multi, sp.expect, A("enum")];
+    }
     if (rng.chance(1, 8) && isAtom(sp.expect, "ok")) {
       // a module whose DEFAULT EXPORT IS AN EXPRESSION that mentions constants of its own module, imported by a module that has
       // a constant of the same name with another value: the expression is typed in the scope of the module it is written in
